@@ -510,7 +510,14 @@ func maxInt(a, b int) int {
 // ---------------------------------------------------------------------------
 
 func synthOptsFor(idx uint64) synthOpts {
-	return synthOpts{Structs: 22, MaxFields: 9, TwoFiles: idx%3 == 1, Systematic: idx%2 == 0}
+	files := 1
+	switch idx % 6 {
+	case 1:
+		files = 2
+	case 4:
+		files = 3
+	}
+	return synthOpts{Structs: 22, MaxFields: 9, Files: files, Systematic: idx%2 == 0}
 }
 
 func prepareSynth(rec *common.Recorder, cfg *common.Config, w *workspace, i uint64) *job {
@@ -518,7 +525,7 @@ func prepareSynth(rec *common.Recorder, cfg *common.Config, w *workspace, i uint
 	j := &job{idx: i, name: name, dir: "zvgen/" + name, probe: "probe_" + name}
 	opts := synthOptsFor(i)
 	j.info = map[string]interface{}{"mode": "synth", "seed": cfg.Seed, "index": i, "opts": opts}
-	rec.Case(i, fmt.Sprintf("synth schema %s twofiles=%v systematic=%v", name, opts.TwoFiles, opts.Systematic))
+	rec.Case(i, fmt.Sprintf("synth schema %s files=%d systematic=%v", name, opts.Files, opts.Systematic))
 	rng := common.NewRNG(common.CaseSeed(cfg.Seed, cfg.Prop+"/"+cfg.Mode, i))
 	model := Synthesize(rng, name, modPath+"/"+j.dir, opts)
 	req, err := EncodeRequest(model)
@@ -545,7 +552,73 @@ func prepareSynth(rec *common.Recorder, cfg *common.Config, w *workspace, i uint
 	}
 	rec.Count("schemas", 1)
 	rec.Count("request_bytes", int64(len(req)))
+	countCrossFile(rec, desc)
 	return j
+}
+
+// reservedImportNames are the local import names capnpc-go reserves for its
+// own imports; a schema package with one of these names must be renamed.
+var reservedImportNames = map[string]bool{"capnp": true, "schemas": true, "server": true, "text": true, "context": true, "math": true, "strconv": true}
+
+// countCrossFile counts, from the description of the request, the fields
+// whose type node lives in another schema file (Go package), and how many of
+// those packages the generator has to import under a renamed qualifier.
+func countCrossFile(rec *common.Recorder, d *SchemaDesc) {
+	fileOf := map[uint64]uint64{}
+	for _, s := range d.Structs {
+		fileOf[s.ID] = s.File
+	}
+	for _, e := range d.Enums {
+		fileOf[e.ID] = e.File
+	}
+	for _, x := range d.Ifaces {
+		fileOf[x.ID] = x.File
+	}
+	pkgCount := map[string]int{}
+	nreq := 0
+	for _, f := range d.Files {
+		if f.Requested {
+			pkgCount[f.Pkg]++
+			nreq++
+		}
+	}
+	if nreq > 1 {
+		rec.Count("multi_file_requests", 1)
+		rec.Count("schema_files_in_multi_file_requests", int64(nreq))
+	}
+	collides := func(fid uint64) bool {
+		f := d.fileByID(fid)
+		return f != nil && (reservedImportNames[f.Pkg] || pkgCount[f.Pkg] > 1)
+	}
+	for _, f := range d.Files {
+		if f.Requested && nreq > 1 && collides(f.ID) {
+			rec.Count("colliding_package_names", 1)
+		}
+	}
+	for _, s := range d.Structs {
+		for i := range s.Fields {
+			t := s.Fields[i].T
+			if t == nil {
+				continue
+			}
+			kind := t.K
+			for t.K == "list" {
+				t = t.Elem
+				kind = "list_" + t.K
+			}
+			if t.ID == 0 || fileOf[t.ID] == 0 || fileOf[t.ID] == s.File {
+				continue
+			}
+			rec.Count("cross_file_fields", 1)
+			rec.Count("cross_file_fields_"+kind, 1)
+			if collides(fileOf[t.ID]) {
+				rec.Count("cross_file_fields_renamed_import", 1)
+				if kind == "struct" {
+					rec.Count("cross_file_struct_fields_renamed_import", 1)
+				}
+			}
+		}
+	}
 }
 
 func storedList(w *workspace) []string {
